@@ -1,8 +1,8 @@
 (* C18 - Premultiplied-alpha validity is preserved by every drawing operation.
-   The pixel layer is proved in full here; the lift to every drawing call (all buffers stay premultiplied) is in
-   PremulDraw.v when present - until then the operation-level statement is decided by the correspondence and the
-   check of r,g,b <= a on every pixel the crate produces.  Blend mode Color is refuted (dependency defect, known finding). *)
-Require Import RQ.Base RQ.Pixel RQ.PixelProofs.
+   The pixel layer (PixelProofs.v) and its lift to shaders, span blitters, composite and every DrawTarget operation
+   (PremulDraw.v) are proved; the operation-level statements are in "if the call returns" form so that they cover all
+   28 blend modes.  Blend mode Color is refuted as a total function (dependency defect, known finding). *)
+Require Import RQ.Base RQ.Pixel RQ.PixelProofs RQ.Shader RQ.Surface RQ.Target RQ.ClipProofs RQ.PremulDraw.
 
 (* (1) 24 of the 28 blend modes map premultiplied pixels to a premultiplied pixel and never trip an assertion *)
 Theorem C18_blend_preserves_premul : forall m s d, In m separable_modes ->
@@ -49,3 +49,35 @@ Print Assumptions C18_lut_entries.
 Theorem C18_Color_refuted : premul 3469623246 = true /\ premul 218959117 = true /\ blend Color 3469623246 218959117 = Err DebugAssert.
 Proof. exact premul_blend_Color_refuted. Qed.
 Print Assumptions C18_Color_refuted.
+
+(* (6) the state invariant: instrumentation off, every pixel of the surface and of every open layer is a 32-bit word
+   with r, g, b <= a, every clip mask entry is a byte *)
+Theorem C18_invariant_is st :
+  all_premul st <->
+  d_probe st = 0 /\ Forall (fun p => wf_px p /\ premul p = true) (d_buf st) /\
+  Forall (fun l => Forall (fun p => wf_px p /\ premul p = true) (l_buf l)) (d_layers st) /\
+  Forall (fun c => match c_mask c with Some m => Forall (fun x => 0 <= x <= 255) m | None => True end) (d_clips st).
+Proof. reflexivity. Qed.
+Print Assumptions C18_invariant_is.
+
+(* (7) every operation with premultiplied sources that returns preserves it (all 15 operations, all 28 blend modes) *)
+Theorem C18_step st o st' : all_premul st -> op_ok o -> step_op st o = Ok st' -> all_premul st'.
+Proof. exact (step_op_premul st o st'). Qed.
+Print Assumptions C18_step.
+
+(* (8) from a premultiplied surface, after any sequence of operations, the surface and every open layer are premultiplied *)
+Theorem C18_premultiplied_alpha_preserved w h buf ops st' :
+  Forall px_ok buf -> Forall op_ok ops -> run_ops (dt_new w h buf) ops = Ok st' ->
+  Forall px_ok (d_buf st') /\ Forall layer_ok (d_layers st').
+Proof. exact (C18_premultiplied_preserved w h buf ops st'). Qed.
+Print Assumptions C18_premultiplied_alpha_preserved.
+
+(* (9) Hue, Saturation and Luminosity can fail on premultiplied input with a u32 overflow in lum *)
+Theorem C18_nonseparable_modes_can_fail :
+  (premul 0x877c2f6e = true /\ premul 0x06010000 = true /\ blend Hue 0x877c2f6e 0x06010000 = Err PixelOverflow) /\
+  (premul 0x8f675429 = true /\ premul 0x01000001 = true /\ blend Saturation 0x8f675429 0x01000001 = Err PixelOverflow) /\
+  (premul 0x01010000 = true /\ premul 0xed9457ea = true /\ blend Luminosity 0x01010000 0xed9457ea = Err PixelOverflow).
+Proof.
+  exact (conj premul_blend_Hue_refuted (conj premul_blend_Saturation_refuted premul_blend_Luminosity_refuted)).
+Qed.
+Print Assumptions C18_nonseparable_modes_can_fail.
